@@ -2,7 +2,10 @@
 
 package hpack
 
-import "io"
+import (
+	"io"
+	"reflect"
+)
 
 // Export shim for check C18 (accessors and copy-constructors only, no codec
 // logic): the private dynamic tables and the carried-over state of Encoder
@@ -122,4 +125,30 @@ func VerifC18RestoreDecoder(dst, src *Decoder) {
 			d.table.byNameValue[k] = v
 		}
 	}
+}
+
+// VerifC18UnknownFields lists fields of the codec's state structures that the clone / state-key code of the check
+// does not know (added by a change to the code under test): cloning would drop them and the state key would ignore
+// them, so the search could silently merge or corrupt states. The check reports this as a harness error.
+func VerifC18UnknownFields() []string {
+	known := map[string][]string{
+		"Decoder":          {"dynTab", "emit", "emitEnabled", "maxStrLen", "buf", "saveBuf", "firstField"},
+		"Encoder":          {"dynTab", "minSize", "maxSizeLimit", "tableSizeUpdate", "w", "buf"},
+		"dynamicTable":     {"table", "size", "maxSize", "allowedMaxSize"},
+		"headerFieldTable": {"ents", "evictCount", "byName", "byNameValue"},
+	}
+	var out []string
+	for _, v := range []any{Decoder{}, Encoder{}, dynamicTable{}, headerFieldTable{}} {
+		t := reflect.TypeOf(v)
+		ok := map[string]bool{}
+		for _, n := range known[t.Name()] {
+			ok[n] = true
+		}
+		for i := 0; i < t.NumField(); i++ {
+			if !ok[t.Field(i).Name] {
+				out = append(out, t.Name()+"."+t.Field(i).Name)
+			}
+		}
+	}
+	return out
 }
